@@ -6,7 +6,35 @@ use vh::*;
 
 const RX_UNIT_US: u64 = 1000;
 
-fn build(srcs: &[Vec<u64>], number_from: Option<u32>) -> Vec<Vec<DltMessage>> {
+/// strictly monotone map from the abstract reception times of a case to real ones. "linear": 2022 + k ms. "extreme": the distinct
+/// abstract values of the case are spread over the corners of the u64 range (0.., around 2^32, around 2^52, .. u64::MAX) - the
+/// merge must only compare reception times, whatever their magnitude
+fn time_map(srcs: &[Vec<u64>], extreme: bool) -> std::collections::BTreeMap<u64, u64> {
+    let mut vals: Vec<u64> = srcs.iter().flatten().copied().collect();
+    vals.sort();
+    vals.dedup();
+    let r_tot = vals.len() as u64;
+    vals.iter()
+        .enumerate()
+        .map(|(r, v)| {
+            let r = r as u64;
+            let real = if !extreme {
+                BASE_US + v * RX_UNIT_US
+            } else if r < r_tot / 4 {
+                r
+            } else if r < r_tot / 2 {
+                (1u64 << 32) - r_tot / 3 + r
+            } else if r < 3 * r_tot / 4 {
+                (1u64 << 52) - 5 * r_tot / 8 + r
+            } else {
+                u64::MAX - (r_tot - 1 - r)
+            };
+            (*v, real)
+        })
+        .collect()
+}
+
+fn build(srcs: &[Vec<u64>], number_from: Option<u32>, tm: &std::collections::BTreeMap<u64, u64>) -> Vec<Vec<DltMessage>> {
     srcs.iter()
         .enumerate()
         .map(|(s, v)| {
@@ -17,7 +45,7 @@ fn build(srcs: &[Vec<u64>], number_from: Option<u32>) -> Vec<Vec<DltMessage>> {
                     pl.extend_from_slice(&(s as u32 + 1).to_le_bytes());
                     pl.extend_from_slice(&(p as u32 + 1).to_le_bytes());
                     let idx = number_from.map(|n| n + p as u32).unwrap_or(0xdead_0000 + p as u32);
-                    let mut m = mk_msg(idx, if s % 2 == 0 { "ECU1" } else { "ECU2" }, BASE_US + rx * RX_UNIT_US, (p as u32) * 10, pl);
+                    let mut m = mk_msg(idx, if s % 2 == 0 { "ECU1" } else { "ECU2" }, tm[rx], (p as u32) * 10, pl);
                     m.standard_header.mcnt = (s * 31 + p) as u8;
                     m
                 })
@@ -28,13 +56,15 @@ fn build(srcs: &[Vec<u64>], number_from: Option<u32>) -> Vec<Vec<DltMessage>> {
 
 type BoxIt<'a> = Box<dyn Iterator<Item = DltMessage> + 'a>;
 
-fn run_case(t: &mut Trace, case: u64, kind: &str, variant: &str, start: u32, srcs: &[Vec<u64>]) {
-    t.ev(json!({"ev":"reset","case":case,"hdr":{"kind":kind,"variant":variant,"start":start,"srcs":srcs}}));
+fn run_case(t: &mut Trace, case: u64, kind: &str, variant: &str, start: u32, srcs: &[Vec<u64>], extreme: bool) {
+    t.ev(json!({"ev":"reset","case":case,"hdr":{"kind":kind,"variant":variant,"start":start,"srcs":srcs,"tmap":if extreme { "extreme" } else { "linear" }}}));
+    let tm = time_map(srcs, extreme);
+    let back: std::collections::BTreeMap<u64, u64> = tm.iter().map(|(a, r)| (*r, *a)).collect();
     // the *_or_single_it short-cut documents that the start index is ignored for one source: the driver then numbers
     // that source from `start` itself (narrower reading, DESIGN.md C09)
     // (chain_lazy / chain_filtered never take the short-cut: their size_hint is not (1, Some(1)))
     let single = variant.ends_with("single") && srcs.len() == 1;
-    let msgs = build(srcs, if single { Some(start) } else { None });
+    let msgs = build(srcs, if single { Some(start) } else { None }, &tm);
     let orig = msgs.clone();
     let res = catch(std::panic::AssertUnwindSafe(|| {
         let its: Vec<BoxIt> = msgs.into_iter().map(|v| Box::new(v.into_iter()) as BoxIt).collect();
@@ -63,7 +93,7 @@ fn run_case(t: &mut Trace, case: u64, kind: &str, variant: &str, start: u32, src
                 o2.index = m.index;
                 o2 == m
             }).unwrap_or(false);
-            evs.push(json!({"ev":"emit","src":s,"pos":p,"rx":(m.reception_time_us - BASE_US)/RX_UNIT_US,"index":m.index,"intact":intact}));
+            evs.push(json!({"ev":"emit","src":s,"pos":p,"rx":back.get(&m.reception_time_us).map(|v| *v as i64).unwrap_or(-1),"index":m.index,"intact":intact}));
         }
         evs
     }));
@@ -93,7 +123,7 @@ fn main() {
             let start = scn["start"].as_u64().unwrap() as u32;
             for kind in ["merge", "chain"] {
                 for v in variants(kind) {
-                    run_case(&mut t, case, kind, v, start, &srcs);
+                    run_case(&mut t, case, kind, v, start, &srcs, case % 4 == 3);
                     case += 1;
                 }
             }
@@ -122,7 +152,7 @@ fn main() {
         let kind = if rng.chance(1, 2) { "merge" } else { "chain" };
         let vs = variants(kind);
         let v = vs[rng.below(vs.len() as u64) as usize];
-        run_case(&mut t, case, kind, v, start, &srcs);
+        run_case(&mut t, case, kind, v, start, &srcs, rng.chance(1, 4));
         case += 1;
     }
     t.flush();
